@@ -31,7 +31,15 @@ RULE = ("(a) structured stream over a common pool of factors (harness/gen_expr.p
         "ordering=None (20%, recomputed at every call): idempotence (canonicalise twice), presentation invariance (random "
         "shuffle of factor order / product nesting / children and parents order, both sides canonicalised), and batches of "
         "40 expressions (random and structured) canonicalised in fresh interpreters under PYTHONHASHSEED in {0,1,2} (quick) "
-        "or 16 seeds (thorough). The branches reached on the real canonicaliser are counted as hit_* tags. A case is "
+        "or 16 seeds (thorough); (c) multi-world joints (gen_expr.struct_mw_*, appended): leaves whose children share a base "
+        "variable across worlds / value marks under Sums in every relation between ranges and duplicated / single bases - "
+        "idempotence, presentation invariance and one fresh-interpreter batch; (d) set-order sensitive shapes "
+        "(gen_expr.struct_setorder: >= 3 sibling Sums over one summand with different multi-variable ranges, sibling leaves "
+        "whose >= 2-element intervention sets differ, same-named counterfactual children with >= 2 subscripts each, 3-4 "
+        "interventions / ranges, sums over multi-world joints) in process and in 2 (quick) / 6 (thorough) systematic "
+        "fresh-interpreter batches, where the set-valued fields are now REALLY built in shuffled construction order "
+        "(enc_expr's frozenset is rebound in the child); wide leaves (4-6 children, 3-4 parents, 3-4 interventions) and "
+        "orderings covering only the event names / with counterfactual elements / with repeated elements. The branches reached on the real canonicaliser are counted as hit_* tags. A case is "
         "non-trivial when the expression contains a product with >=2 factors sharing their first child name, or a "
         "fraction, or a sum that simplifies, and the canonical form differs from the input.")
 ASSUMPTIONS = [
@@ -39,7 +47,7 @@ ASSUMPTIONS = [
     "hash seeds / construction order is a Python-runtime clause (R): decided by running fresh interpreters under several PYTHONHASHSEEDs, not by a theorem (the model represents sets as sorted lists)",
     "normal_form (idempotence + presentation invariance of the public entry point, explicit ordering or ordering=None recomputed at every call) is proved for ALL expressions; an explicit ordering is re-sorted by variable name by ensure_ordering: the hypothesis NameMonotone of the level-table lemmas, shown necessary by a counterexample",
     "presentation invariance is an equivalence (Present is symmetric): e has the canonical form a iff its presentation e' has; when canonicalize raises on e (Q-factor, uncovered name, zero denominator) it raises on every presentation, possibly with a different exception class, and nothing else is claimed",
-    "the Lean theorems are about the hand-written model Y0.Model.Canon/Dsl of the code after the fix commits; the tie to the Python is this run's correspondence check (sampling)",
+    "the Lean theorems are about the hand-written model Y0.Model.Canon/Dsl of the code after the fix commits (incl. d517ad1: Sum.simplify returns a sum over a joint with several children on one base variable unchanged - such a sum is a canonical form, `IsCanon`, and normal_form covers it: the theorems never had a scoping hypothesis, multi-world joints were always inside); the tie to the Python is this run's correspondence check (sampling)",
     "cases where canonicalize raises on both presentations (uncovered name, Q-factor, zero denominator) are outside the property",
 ]
 LEANCHECK_MODULES = ["Y0.Model.Dsl", "Y0.Model.Canon", "Y0.Props.C11"]
@@ -142,6 +150,28 @@ def structured_cases(rng: random.Random, n: int):
     return out
 
 
+def mw_cases(rng: random.Random, n: int):
+    """multi-world joints (gen_expr.struct_mw_*: children sharing a base variable across worlds / value marks, under Sums in
+    every relation between ranges and duplicated / single bases): idempotence and presentation invariance"""
+    out = []
+    for mode in GE.MW_MODES:
+        for _ in range(max(1, n // 60)):
+            nn = rng.choice([3, 4, 4, 5])
+            e, lab = GE.struct_mw_sum(rng, nn, mode=mode, pop=rng.choice([None, None, GE.POPS[0]]))
+            o = _ordering_for(rng, e, nn + 3)
+            out.append({"kind": "idem", "e": e, "ordering": o, "gen": lab})
+            out.append({"kind": "perm", "e": e, "e2": GE.present_shuffle(rng, e), "ordering": o, "gen": lab})
+    while len(out) < n:
+        nn = rng.choice([3, 4, 4, 5])
+        e, lab = GE.struct_mw_expr(rng, nn)
+        o = _ordering_for(rng, e, nn + 3)
+        if rng.random() < 0.45:
+            out.append({"kind": "idem", "e": e, "ordering": o, "gen": lab})
+        else:
+            out.append({"kind": "perm", "e": e, "e2": GE.present_shuffle(rng, e), "ordering": o, "gen": lab})
+    return out
+
+
 def _slots(case):
     if case["kind"] in ("idem", "perm"):
         return dict(F.canonicalize_slots(case["ordering"], "", True), **F.canonicalize_slots(case["ordering"], "_2", True))
@@ -180,6 +210,44 @@ def _cases(rng: random.Random, tier: str):
             else:
                 e, nn, _lab = _struct(rng)
             batch.append([e, _ordering_for(rng, e, nn)])
+        out.append({"kind": "seeds", "batch": batch, "hashseeds": seeds, "shuffle": rng.randrange(1 << 30)})
+    mw = mw_cases(rng, 800 if tier == "quick" else 6000)      # appended: the streams above are unchanged
+    out += mw
+    batch = [[c["e"], c["ordering"]] for c in mw[:40]]
+    out.append({"kind": "seeds", "batch": batch, "hashseeds": seeds, "shuffle": rng.randrange(1 << 30)})
+    # set-order sensitive shapes (gen_expr.struct_setorder): sibling factors differing only inside a multi-element set-valued
+    # field, same-named counterfactual children, 3-4 interventions / ranges, sums over multi-world joints - in process
+    # (idempotence / presentation invariance) and in 2 (quick) / 6 (thorough) systematic fresh-interpreter batches
+    so = []
+    for fam in GE.SETORDER_FAMILIES:
+        for _ in range(30 if tier == "quick" else 200):
+            nn = rng.choice([5, 5, 6])
+            e, lab = GE.struct_setorder(rng, nn, family=fam)
+            o = _ordering_for(rng, e, nn + 3)
+            so.append({"kind": "idem", "e": e, "ordering": o, "gen": lab} if rng.random() < 0.4 else
+                      {"kind": "perm", "e": e, "e2": GE.present_shuffle(rng, e), "ordering": o, "gen": lab})
+    out += so
+    # wide leaves (4-6 children, 3-4 parents, 3-4 interventions) and the ordering shapes `_ordering_for` never produces
+    # (covering only the event names; counterfactual / value-marked / Intervention elements; repeated elements)
+    for _ in range(700 if tier == "quick" else 5000):
+        if rng.random() < 0.6:
+            e, lab = GE.struct_wide_expr(rng)
+            nn = max(GE.all_names(e)) + 1
+        else:
+            e, nn, lab = _struct(rng)
+        if rng.random() < 0.35:
+            o, kind = _ordering_for(rng, e, nn), "plain"
+        else:
+            kind = rng.choice(GE.ORDERING_SHAPES)
+            o = GE.rand_ordering_shape(rng, e, kind, nn)
+        out.append({"kind": "idem", "e": e, "ordering": o, "gen": lab, "ordering_kind": kind} if rng.random() < 0.45 else
+                   {"kind": "perm", "e": e, "e2": GE.present_shuffle(rng, e), "ordering": o, "gen": lab, "ordering_kind": kind})
+    for b in range(2 if tier == "quick" else 6):
+        batch = []
+        for i in range(42):
+            nn = rng.choice([5, 5, 6])
+            e, _lab = GE.struct_setorder(rng, nn, family=GE.SETORDER_FAMILIES[i % len(GE.SETORDER_FAMILIES)])
+            batch.append([e, _ordering_for(rng, e, nn + 3)])
         out.append({"kind": "seeds", "batch": batch, "hashseeds": seeds, "shuffle": rng.randrange(1 << 30)})
     return out
 
@@ -232,6 +300,9 @@ def run_python(case):
     if kind == "idem":
         c1, err = _canon(case["e"], case["ordering"], fm)
         tags = {"kind": kind, "well_scoped": GE.well_scoped(case["e"]), "depth": GE.depth(case["e"]),
+                "shared_base": GE.has_shared_base(case["e"]), "multiworld": GE.is_multiworld(case["e"]),
+                "ordering_kind": case.get("ordering_kind", "plain"), "leaf_children>=4": GE.leaf_sizes(case["e"])[0] >= 4,
+                "leaf_parents>=3": GE.leaf_sizes(case["e"])[1] >= 3, "leaf_ivs>=3": GE.leaf_sizes(case["e"])[2] >= 3,
                 "ordering": "none" if case["ordering"] is None else "explicit", **_feat_tags(case), **F.tags(fm)}
         if c1 is None:
             return {"out": ["err"], "fail": None, "nontrivial": False, "tags": {**tags, "outcome": "err"}}
@@ -252,6 +323,7 @@ def run_python(case):
         c2, e2 = _canon(case["e2"], case["ordering"], fm, "_2")
         tags = {"kind": kind, "well_scoped": GE.well_scoped(case["e"]), "depth": GE.depth(case["e"]),
                 "shuffled": case["e"] != case["e2"], "ordering": "none" if case["ordering"] is None else "explicit",
+                "shared_base": GE.has_shared_base(case["e"]), "multiworld": GE.is_multiworld(case["e"]),
                 **_feat_tags(case), **F.tags(fm)}
         fail = None
         if c1 is None and c2 is None:
@@ -285,8 +357,10 @@ rng = random.Random(SHUFFLE)
 _fs = frozenset
 def shuffled_frozenset(xs):
     xs = list(xs); rng.shuffle(xs); return _fs(xs)
-# construction order of the set-valued fields is shuffled as well
-X_dec_var, X_dec_expr = X.dec_var, X.dec_expr
+# construction order of the set-valued fields is shuffled as well: enc_expr builds every set-valued field (interventions,
+# Sum.ranges, Q-factor domain / codomain) through the name `frozenset`, which is rebound here for that module only
+X.frozenset = shuffled_frozenset
+assert X.dec_expr(["sum", [["v", 1, "n", "0", []], ["v", 2, "n", "0", []]], ["P", [["v", 0, "n", "0", [[1, "m"], [2, "p"]]]], []]]) is not None
 out = []
 for idx, (enc, ordering) in enumerate(BATCH):
     try:
